@@ -102,7 +102,7 @@ fn shapes(level: u64) -> Vec<(usize, usize)> {
     // (log_num_of_bits, log_bytes_in_region), lb <= lr + 3
     let mut v = vec![(0, 3), (0, 0), (3, 0), (1, 3), (3, 15), (3, 22), (6, 3)];
     if level >= 1 {
-        v.extend([(3, 8), (0, 12), (2, 4), (4, 4), (5, 8), (0, 22), (6, 12), (1, 0), (3, 3)]);
+        v.extend([(3, 8), (0, 12), (2, 4), (4, 4), (5, 8), (0, 22), (6, 12), (1, 0), (3, 3), (2, 0)]);
     }
     v
 }
